@@ -1,5 +1,5 @@
 # data for mkmanifest.py
-HOOK_COMMITS = ['fba6b35', '69c1f84', 'ee68f01']
+HOOK_COMMITS = ['fba6b35', '69c1f84', 'ee68f01', 'd45d621']
 T = 'Coq proof over Gallina model + differential correspondence + oracle'
 Q = 'theorems on exact rationals, execution on binary32'
 CLAIMED = {
@@ -8,6 +8,7 @@ CLAIMED = {
     'C03': (T, 'reader represented by the model read_xml, tied by byte-level correspondence; custom DTD entities outside the model', None),
     'C04': (T, 'list / points syntax acceptance and the frame property of position rewriting proved; path and transform scanners modelled and compared bit-exactly; tree-preservation oracle over the SVG 1.1 vocabulary (partial: no acceptance theorem for path data, see K8)', None),
     'C05': (T, 'idempotence of blank-line trimming, escaping and read-back proved; attribute re-sort / class re-split identities covered by correspondence only (partial)', None),
+    'C08': (T, Q + '; partial: the equality of the accumulated extent with the structural extent of the written tree is proved for reference-free, already positioned documents (extent_matches_structure_partial); use, clip paths and attributes svgdx resolves are tied by the bit-exact correspondence (write_root_svg hook, document extent, root start tag) and checked by the recomputation oracle; known findings K40-K44', None),
     'C09': (T, Q, None),
     'C18': (T, 'independence of instances, first-registration template and specs proved on the pipeline skeleton; translation validation of reuse documents against inlined twins; the instantiation itself (attribute override, placement) is modelled in Model/Leaf.v and not yet under a theorem (partial)', None),
     'C19': (T, Q + '; text fidelity proved for text_string / lines / escaping, placement from the generated alignment table', None),
